@@ -15,6 +15,7 @@ import (
 	"verifharness/drivers/mux"
 	"verifharness/drivers/reg"
 	"verifharness/drivers/roots"
+	"verifharness/drivers/seal"
 	"verifharness/drivers/split"
 	"verifharness/drivers/store"
 )
@@ -39,6 +40,9 @@ var families = map[string]famFn{
 	},
 	"mux": func(in, out string, seed int64, par int, tier string) error {
 		return runFamily(in, out, seed, par, mux.Run, func(b mux.Instance) string { return b.Id })
+	},
+	"seal": func(in, out string, seed int64, par int, tier string) error {
+		return runFamily(in, out, seed, par, seal.Run, func(b seal.Behaviour) string { return b.Id })
 	},
 	"split": func(in, out string, seed int64, par int, tier string) error {
 		return runFamily(in, out, seed, par, split.Run, func(b split.Behaviour) string { return b.Id })
